@@ -92,6 +92,20 @@ def generate(rng, tier, seed):
                 if r.value != exp:
                     c.fail("xor is not data[i]^mask[i] with surplus ignored / missing treated as zero")
             yield c
+    # xor with degenerate content (all-zero / all-one / single-bit operands) at unequal lengths: the result is as long as the data
+    pats = [lambda k: bytes(k), lambda k: b"\xff" * k, lambda k: (b"\x00" * (k - 1) + b"\x01") if k else b"", lambda k: (b"\x80" + b"\x00" * (k - 1)) if k else b"",
+            lambda k: bytes(rng.getrandbits(8) for _ in range(k))]
+    for n in (0, 1, 2, 7, 8, 9, 16, 24):
+        for m in (0, 1, 2, 7, 8, 9, 16, 24, 30):
+            for pd in pats:
+                for pk in pats:
+                    data, key = pd(n), pk(m)
+                    c = Case("xor:degenerate-content", {"len_data": n, "len_key": m})
+                    r = c.call("tools.xor", data, key)
+                    exp = bytes(d ^ (key[i] if i < m else 0) for i, d in enumerate(data))
+                    if not r.ok or r.value != exp:
+                        c.fail(f"xor({data.hex()}, {key.hex()}) = {r.value.hex() if r.ok else r.err}, expected {exp.hex()}")
+                    yield c
     # parity helper
     vals = list(range(1 << 16)) + [rng.getrandbits(32) for _ in range(4000 if tier == "quick" else 60000)]
     vals += [0xFFFFFFFF, 0x80000000, 0x7FFFFFFF, 0x10000, 0xFFFF0000]
